@@ -117,6 +117,14 @@ def universe(thorough: bool) -> typing.List[TypeDef]:
             ("Ifd", "Ius"),
         )
     )
+    # alignment padding after variable-length fields whose LONGEST form ends byte-aligned (a padding decision taken from the
+    # maximum length alone is wrong for the shorter forms), followed by things that need byte alignment
+    for tag, arr in (("b8", "bool[<=8]"), ("b16", "bool[<=16]"), ("u4x2", "truncated uint4[<=2]"), ("u3x8", "truncated uint3[<=8]"), ("b7", "bool[<=7]"), ("u2x4", "saturated uint2[<=4]")):
+        out.append(TypeDef(f"L5pad{tag}c", "L5", f"{arr} v\nNS.Ifs.1.0 c\nuint8 tail\n@sealed\n", True, ("Ifs",)))
+        out.append(TypeDef(f"L5pad{tag}d", "L5", f"uint8 h\n{arr} v\nNS.Ifd.1.0 c\n@sealed\n", tag in ("b8", "u4x2"), ("Ifd",)))
+        out.append(TypeDef(f"L5pad{tag}a", "L5", f"{arr} v\nNS.Ifs.1.0[<=2] cs\nbool z\n@sealed\n", tag in ("b8", "u3x8"), ("Ifs",)))
+        out.append(TypeDef(f"L5pad{tag}u", "L5", f"@union\n{arr} v\nNS.Ifs.1.0 c\n@sealed\n", tag == "b8", ("Ifs",)))
+    out.append(TypeDef("L5padvv", "L5", "bool[<=8] v\nbool[<=8] w\nNS.Ivs.1.0 c\ntruncated uint4[<=2] q\nNS.Ifs.1.0[2] cs\n@sealed\n", True, ("Ivs", "Ifs")))
     out.append(TypeDef("L5const", "L5", "uint8 A = 255\nint64 B = -9223372036854775807\nfloat32 C = 1.0 / 3.0\nbool D = true\nuint8 x\n@sealed\n", True))
     return out
 
